@@ -356,7 +356,7 @@ func containsAttr(b []byte, lowName string) bool {
 func C09Plan() *vlib.Plan {
 	p := &vlib.Plan{
 		Property: "C09", Level: "exploration",
-		Rule:   "E-ENUM full product: every case variant of the 6 fixed private names (all 2^n variants for names <= 8 letters, lower/upper/single-letter flips otherwise) and of the _condor_priv prefix x suffixes {'',X,_key}, x all 64 option-bit sets x 4 whitelist shapes (none, public only, naming the private name, naming it in another case) x peer versions (6 fixed; for reserved-prefix names a 41-point grid major {6,8,9,10,23} x minor {0,8,9,10} x patch {0,13} + none) x 4 stream states (no key; keyed and encrypting; keyed but not encrypting; the same after an earlier PutSecret/GetSecret exchange); ad also holds near-miss public names. Oracle: independent search of wire bytes and of their reference decryption for the private name and a unique canary; real receiver in the same state must rebuild the filtered ad and stay in sync (sentinel). Plus private values whose serialised length runs over 1 MiB-72 .. 1 MiB+40 (and around 2 MiB) in every stream state, with canaries at both ends of the value. Non-trivial = every combo (each serialises an ad holding a private attribute).",
+		Rule:   "E-ENUM full product: every case variant of the 6 fixed private names (all 2^n variants for names <= 8 letters, lower/upper/single-letter flips otherwise) and of the _condor_priv prefix x suffixes {'',X,_key}, x all 64 option-bit sets x 4 whitelist shapes (none, public only, naming the private name, naming it in another case) x peer versions (6 fixed; for reserved-prefix names a 41-point grid major {6,8,9,10,23} x minor {0,8,9,10} x patch {0,13} + none) x 4 stream states (no key; keyed and encrypting; keyed but not encrypting; the same after an earlier PutSecret/GetSecret exchange); ad also holds near-miss public names. Oracle: independent search of wire bytes and of their reference decryption for the private name and a unique canary; real receiver in the same state must rebuild the filtered ad and stay in sync (sentinel). Plus the size-bounded receiver (5 budgets) on ads with the private attribute first / in the middle / last x 3 value lengths in every stream state: refuses for size or rebuilds what the unbounded receiver rebuilds. Plus private values whose serialised length runs over 1 MiB-72 .. 1 MiB+40 (and around 2 MiB) in every stream state, with canaries at both ends of the value. Non-trivial = every combo (each serialises an ad holding a private attribute).",
 		Assume: []string{"reference decryption by refcodec; canary strings are unique 10+ character tokens"},
 	}
 	p.Gen = func(tier string, yield func(vlib.Case)) {
@@ -375,6 +375,15 @@ func C09Plan() *vlib.Plan {
 			}
 			yield(vlib.Case{ID: "name/" + n, Run: func() *vlib.Result { return c09RunName(i, n, v2[n], false, vs) }})
 		}
+		yield(vlib.Case{ID: "bounded-receiver", Run: func() *vlib.Result {
+			res := &vlib.Result{}
+			for st := stNoKey; st <= stKeyedClearAfterSecret; st++ {
+				for _, n := range []string{"ClaimId", "CAPABILITY", "_condor_priv_key", "claimid"} {
+					c09Bounded(res, n, st)
+				}
+			}
+			return res
+		}})
 		// a private value around the 1 MiB frame limit, in every stream state
 		for st := stNoKey; st <= stKeyedClearAfterSecret; st++ {
 			st := st
@@ -463,4 +472,73 @@ func c09HugeSecret(res *vlib.Result, name string, st c09State, total int) {
 		res.Violate(fmt.Sprintf("C09/receiver-mismatch/%v", st), "%s: the private value did not arrive intact (%d bytes of %d)", id, len(v), len(val))
 	}
 	res.Outcome("huge-secret-ok")
+}
+
+// c09Bounded: the size-bounded receiver (GetClassAdWithMaxSize, the one handshakes and CCB use)
+// on ads whose private attribute comes FIRST, in the middle or last, short or long, in every
+// stream state, with budgets from generous to tight: it either refuses for size, or rebuilds the
+// ad exactly as the unbounded receiver does.
+func c09Bounded(res *vlib.Result, name string, st c09State) {
+	ctx := context.Background()
+	for _, pos := range []string{"first", "middle", "last"} {
+		for _, vlen := range []int{1, 40, 700} {
+			ad := classad.New()
+			val := "BCANARY" + strings.Repeat("v", vlen)
+			if pos == "first" {
+				_ = ad.Set(name, val)
+			}
+			_ = ad.Set("Pub", "pubvalue")
+			if pos == "middle" {
+				_ = ad.Set(name, val)
+			}
+			_ = ad.Set("Other", 42)
+			if pos == "last" {
+				_ = ad.Set(name, val)
+			}
+			_ = ad.Set("MyType", "Machine")
+			sb := &netsim.Buf{}
+			m := message.NewMessageForStream(c09Stream(st, sb))
+			err := m.PutClassAdWithOptions(ctx, ad, &message.PutClassAdConfig{Options: message.PutClassAdIncludePrivate})
+			if err == nil {
+				err = m.PutInt(ctx, 424242)
+			}
+			if err == nil {
+				err = m.FinishMessage(ctx)
+			}
+			id := fmt.Sprintf("name=%s position=%s value-length=%d state=%v", name, pos, len(val), st)
+			if err != nil {
+				res.Violate("C09/send-error", "%s: %v", id, err)
+				continue
+			}
+			ref, err := message.NewMessageFromStream(c09Stream(st, &netsim.Buf{R: sb.W})).GetClassAd(ctx)
+			if err != nil {
+				res.Violate(fmt.Sprintf("C09/receiver-error/%v", st), "%s: %v", id, err)
+				continue
+			}
+			for _, budget := range []int{1 << 20, 65536, 4096, len(val) + 200, len(val) / 2} {
+				res.Evals++
+				res.Nontrivial++
+				rm := message.NewMessageFromStream(c09Stream(st, &netsim.Buf{R: sb.W}))
+				got, err := rm.GetClassAdWithMaxSize(ctx, budget)
+				if err != nil {
+					if budget >= len(val)+200 {
+						res.Violate(fmt.Sprintf("C09/bounded-receiver-error/%v", st), "%s: GetClassAdWithMaxSize(%d) fails on an ad the unbounded receiver rebuilds: %v", id, budget, err)
+					}
+					continue
+				}
+				if s, e2 := rm.GetInt(ctx); e2 != nil || s != 424242 {
+					res.Violate(fmt.Sprintf("C09/receiver-desync/%v", st), "%s: bounded receiver (budget %d): sentinel %d %v", id, budget, s, e2)
+					continue
+				}
+				for _, a := range []string{name, "Pub"} {
+					g, _ := got.EvaluateAttrString(a)
+					w, _ := ref.EvaluateAttrString(a)
+					if g != w {
+						res.Violate(fmt.Sprintf("C09/receiver-mismatch/%v", st), "%s: bounded receiver (budget %d) rebuilt %s differently from the unbounded one", id, budget, a)
+					}
+				}
+			}
+		}
+	}
+	res.Outcome("bounded-receiver-ok")
 }
